@@ -162,7 +162,8 @@ CODES_S = {-1: 'peptide not assigned to exactly one output database', -2: 'pepti
 @cond('C18', bounds='one peptide with two header entries (1 and 2 variants); every variant->source assignment over 3 '
       'sources, every priority order of the 3 sources, symbolic unbounded max_groups, 3 additional-split settings, '
       'both entry orders', encodes=['moPepGen.aa.PeptidePoolSplitter.PeptidePoolSplitter.split/create_wildcard_map',
-      'moPepGen.aa.VariantPeptideLabel.VariantPeptideInfo.from_variant_peptide'], codes=CODES_S, timeout=900)
+      'moPepGen.aa.VariantPeptideLabel.VariantPeptideInfo.from_variant_peptide'], codes=CODES_S, timeout=1500,
+      tiers=('thorough',))
 def c18_split(s0: int, s1: int, s2: int, perm: int, max_groups: int, add_kind: int, swap: bool) -> int:
     """
     pre: 0 <= s0 <= 2 and 0 <= s1 <= 2 and 0 <= s2 <= 2
@@ -364,3 +365,16 @@ def c18_label_roundtrip(i: int, j: int) -> int:
     if str(ids[0]) != LABEL_CASES[i] or str(ids[1]) != LABEL_CASES[j]:
         return -1
     return OK
+
+
+@cond('C18', bounds='as c18_split with the header entries in one fixed order (quick tier)',
+      encodes=['moPepGen.aa.PeptidePoolSplitter.PeptidePoolSplitter.split/create_wildcard_map',
+      'moPepGen.aa.VariantPeptideLabel.VariantPeptideInfo.from_variant_peptide'], codes=CODES_S, timeout=600)
+def c18_split_q(s0: int, s1: int, s2: int, perm: int, max_groups: int, add_kind: int) -> int:
+    """
+    pre: 0 <= s0 <= 2 and 0 <= s1 <= 2 and 0 <= s2 <= 2
+    pre: 0 <= perm <= 5
+    pre: 0 <= add_kind <= 2
+    post: _ >= 0
+    """
+    return _split_perm(s0, s1, s2, perm, max_groups, add_kind, False)
